@@ -54,13 +54,17 @@ KINDS_WIDE = KINDS_DEEP + [
 RULES = {
     "scanFix": json.dumps({"id": "c16-fix", "language": "JavaScript", "rule": {"pattern": "foo($A)"},
                            "message": "found a call with $A", "fix": "bar($A)"}),
+    # no fix: `scan --json -U` then writes nothing, but its worker runs in the fix-separating mode
+    # (one empty per-file buffer of diffs before every buffer of matches)
+    "scanNoFixU": json.dumps({"id": "c16-nofix", "language": "JavaScript", "rule": {"pattern": "foo($A)"},
+                              "message": "found a call with $A"}),
     "scanExpand": json.dumps({"id": "c16-expand", "language": "JavaScript", "rule": {"pattern": "foo($A)"},
                               "message": "found a call with $A",
                               "fix": {"template": "bar($A)", "expandEnd": {"regex": ";"}}}),
 }
 STYLES = ("pretty", "stream", "compact")
 # which expected-count column a command uses
-COUNT_COL = {"runA": 0, "runARGS": 1, "rewrite": 0, "scanFix": 0, "scanExpand": 0}
+COUNT_COL = {"runA": 0, "runARGS": 1, "rewrite": 0, "scanFix": 0, "scanExpand": 0, "scanNoFixU": 0}
 
 
 # ----------------------------------------------------------------------------------------------
@@ -374,7 +378,7 @@ def all_modes(contexts):
         for style in STYLES:
             for ctx, flags in contexts:
                 ms.append({"out": "json", "cmd": cmd, "style": style, "ctx": list(ctx), "flags": flags})
-    for cmd in ("scanFix", "scanExpand"):
+    for cmd in ("scanFix", "scanExpand", "scanNoFixU"):
         for style in STYLES:
             ms.append({"out": "json", "cmd": cmd, "style": style, "ctx": [0, 0], "flags": []})
     for cmd in ("runA", "runARGS"):
@@ -386,7 +390,7 @@ def all_modes(contexts):
 def argv_of(mode):
     cmd = mode["cmd"]
     if cmd.startswith("scan"):
-        a = ["scan", "-r", RULE_TOKEN]
+        a = ["scan", "-r", RULE_TOKEN] + (["-U"] if cmd == "scanNoFixU" else [])
     else:
         a = ["run", "-p", "foo($$$ARGS)" if cmd == "runARGS" else "foo($A)", "-l", "js"]
         if cmd == "rewrite":
